@@ -10,11 +10,13 @@ package main
 import (
 	"bytes"
 	"fmt"
+	"io"
 	"net"
 	"net/http"
 	"net/http/httptest"
 	"sort"
 	"strings"
+	"time"
 
 	"github.com/refraction-networking/conjure/pkg/registrars/dns-registrar/dns"
 	"github.com/refraction-networking/conjure/pkg/registrars/dns-registrar/encryption"
@@ -32,6 +34,7 @@ import (
 	"github.com/refraction-networking/conjure/pkg/zzverif/vfix"
 	"github.com/refraction-networking/conjure/pkg/zzverif/vh"
 	"github.com/refraction-networking/conjure/pkg/zzverif/vnet"
+	"github.com/refraction-networking/conjure/pkg/zzverif/vsched"
 	pb "github.com/refraction-networking/conjure/proto"
 	"google.golang.org/protobuf/proto"
 	"google.golang.org/protobuf/types/known/anypb"
@@ -197,7 +200,9 @@ func mutations(valid []byte) [][]byte {
 // ---- entry points -----------------------------------------------------------------------------
 
 func zmq(e *venum.E, a *vh.Args) {
-	vnet.ResolveHook = func(network, host string) (*net.IPAddr, error) { return &net.IPAddr{IP: net.ParseIP("93.184.216.34")}, nil }
+	vnet.ResolveHook = func(network, host string) (*net.IPAddr, error) {
+		return &net.IPAddr{IP: net.ParseIP("93.184.216.34")}, nil
+	}
 	newRM := func() *lib.RegistrationManager {
 		rm := vfix.Manager(&lib.RegConfig{EnableIPv4: true, EnableIPv6: true, CovertBlocklistSubnets: []string{"10.0.0.0/8"}}, sel, &vfix.Tester{}, vfix.AllWrapping, nil)
 		var anns []lib.VerifDetectorMsg
@@ -342,9 +347,45 @@ func httpEntry(e *venum.E, a *vh.Args) {
 	}
 }
 
+// onePacket is a PacketConn that delivers one datagram and then ends the server loop.
+type onePacket struct {
+	data []byte
+	done bool
+	sent [][]byte
+}
+
+func (p *onePacket) ReadFrom(b []byte) (int, net.Addr, error) {
+	if p.done {
+		return 0, nil, io.EOF
+	}
+	p.done = true
+	return copy(b, p.data), &net.UDPAddr{IP: net.IPv4(203, 0, 113, 5), Port: 5353}, nil
+}
+func (p *onePacket) WriteTo(b []byte, _ net.Addr) (int, error) {
+	p.sent = append(p.sent, append([]byte{}, b...))
+	return len(b), nil
+}
+func (p *onePacket) Close() error                     { return nil }
+func (p *onePacket) LocalAddr() net.Addr              { return &net.UDPAddr{} }
+func (p *onePacket) SetDeadline(time.Time) error      { return nil }
+func (p *onePacket) SetReadDeadline(time.Time) error  { return nil }
+func (p *onePacket) SetWriteDeadline(time.Time) error { return nil }
+
+var respPriv, _ = encryption.GeneratePrivkey()
+
+func respPC(pc net.PacketConn) *responder.Responder {
+	r, err := responder.VerifNew("t.example.com", respPriv, pc)
+	if err != nil {
+		vh.Fatal("%v", err)
+	}
+	return r
+}
+
 func dnsEntry(e *venum.E, a *vh.Args) {
+	vsched.InlineGo = true // rewritten go statements (the responder's per-datagram goroutine) run synchronously
 	// wire-format parser: headers x bodies built from a token alphabet, pointer chains, small strings
-	tokens := [][]byte{{0x00}, {0x01, 'a'}, append([]byte{0x3f}, bytes.Repeat([]byte{'b'}, 63)...), {0x40, 'x'}, {0x80}, {0xc0, 0x0c}, {0xc0, 0x00}, {0xc0, 0xff}, {0xc0, 0x0e}, {0x00, 0x10, 0x00, 0x01}, {0x00, 0x00, 0x00, 0x3c, 0x00, 0x02, 0x01, 'z'}, {0x00, 0x00, 0x00, 0x3c, 0xff, 0xff}}
+	// (the last two tokens are EDNS OPT pseudo-records, version 0 and version 1)
+	tokens := [][]byte{{0x00, 0x00, 0x29, 0x10, 0x00, 0x00, 0x00, 0x00, 0x00, 0x00, 0x00}, {0x00, 0x00, 0x29, 0x10, 0x00, 0x00, 0x01, 0x00, 0x00, 0x00, 0x00}, {0x00}, {0x01, 'a'}, append([]byte{0x3f}, bytes.Repeat([]byte{'b'}, 63)...), {0x40, 'x'}, {0x80}, {0xc0, 0x0c}, {0xc0, 0x00}, {0xc0, 0xff}, {0xc0, 0x0e}, {0x00, 0x10, 0x00, 0x01}, {0x00, 0x00, 0x00, 0x3c, 0x00, 0x02, 0x01, 'z'}, {0x00, 0x00, 0x00, 0x3c, 0xff, 0xff}}
 	var bodies [][]byte
 	var rec func(cur []byte, depth int)
 	rec = func(cur []byte, depth int) {
@@ -399,6 +440,9 @@ func dnsEntry(e *venum.E, a *vh.Args) {
 								if r != nil {
 									_, _ = r.WireFormat()
 								}
+								// the whole per-datagram path of the real server loop (parse, respond, build the UDP answer, send)
+								pc := &onePacket{data: msg}
+								_ = respPC(pc).RecvAndRespond(func(b []byte) ([]byte, error) { return b, nil })
 								if payload != nil {
 									if p2, err := msgformat.RemoveRequestFormat(payload); err == nil {
 										_, _ = resp.VerifCraftResponse(p2, func(b []byte) ([]byte, error) { return b, nil })
